@@ -1,5 +1,6 @@
 import DashLive.Lemmas.Options
 import DashLive.Gen.Options
+import DashLive.Gen.Manifests
 /-!
 # C07 – options given to a manifest reach its media requests with the same meaning
 
@@ -487,5 +488,317 @@ example : leewayRow.cgi = "leeway" ∧ ∃ res, mediaOptions toyCodec table (fun
   refine ⟨res, hres, ?_⟩
   have := ((h 32 _ hrow).2 (by simp)).1 (.int 60) (by simp) (by decide) (by decide)
   exact (ValEquiv_iff_eq _ _ (by intro l; simp)).mp this
+
+
+open DashLive.Gen.Manifests
+
+/-! ## templates: which options a manifest template drops or forces before URLs are built -/
+
+section
+variable {DT : Type} [DecidableEq DT] (C : DTCodec DT)
+
+omit [DecidableEq DT] in
+/-- **an option the template lists (or that is not feature-controlled at all) passes the
+feature filter unchanged**, whatever the other options and the stream defaults are -/
+theorem supported_options_survive (K : FilterConsts) (tbl : List OptionRow) (features : List String)
+    (dflt o : Nat → Val DT) (i : Nat) (r : OptionRow) (hr : tbl[i]? = some r)
+    (h : r.full ∈ features ∨ r.pfx ≠ "" ∨ r.full ∉ K.featureControlled) :
+    removeUnsupported K tbl features dflt o i = o i := by
+  apply removeUnsupported_kept K tbl features dflt o i r hr
+  unfold dropsOption
+  rcases h with h | h | h
+  · simp [h]
+  · simp [h]
+  · simp [h]
+
+/-- **an option the template does not support is dropped on the manifest side and never appears in
+any media URL, so the media side sees its default too – no half-applied option.**
+For an accepted manifest request (`hs`), an option `r` that `remove_unsupported_features` controls
+and the template does not list:
+1. the options handed to `ManifestContext` hold the (stream) default for it, or the field is gone;
+2. for every media type and whatever the manifest's timing writes back, no parameter named
+   `r.cgi` is generated;
+3. whenever the media handler accepts the URL built from those parameters, it has the default. -/
+theorem unsupported_options_dropped_consistently (tbl : List OptionRow) (ht : TableOk tbl)
+    (K : FilterConsts) (m : ManifestRow) (mode : Bytes) (args : List (Bytes × Bytes))
+    (dflt : Nat → Val DT) (of : Opts DT)
+    (hs : serveManifestOptions C K tbl m mode args dflt = .ok of)
+    (i : Nat) (r : OptionRow) (hr : tbl[i]? = some r)
+    (hdrop : dropsOption K m.features r = true) (hh : r.fieldName ∉ handlerFields)
+    (ast depth : Val DT)
+    (hnt : fieldIdx tbl "availabilityStartTime" ≠ some i ∧ fieldIdx tbl "timeShiftBufferDepth" ≠ some i) :
+    (of i = none ∨ of i = some (dflt i)) ∧
+    (∀ use t, (r.cgi, t) ∉ genParams C tbl (some use) mediaExclude true (fun j => some (dflt j))
+        (withTiming tbl ast depth of)) ∧
+    (∀ (use : Nat) (path : Bytes) (ovs : List (String × Bytes)) (res : Nat → Val DT),
+      DtCodecLaws C → (ovs.map Prod.fst).Nodup → (35 : UInt8) ∉ path ∧ (63 : UInt8) ∉ path →
+      r.cgi ∉ ovs.map Prod.fst →
+      (∀ j : Nat, ∀ s : OptionRow, ∀ v, tbl[j]? = some s → withTiming tbl ast depth of j = some v →
+        s.usage &&& use ≠ 0 → mediaExclude.contains s.fieldName = false → v ≠ dflt j →
+        s.cgi ∉ ovs.map Prod.fst → Canonical s.kind v) →
+      (∀ k t, (k, t) ∈ ovs → ∃ j : Nat, ∃ s : OptionRow, ∃ w, tbl[j]? = some s ∧ s.cgi = k ∧
+        fromString C s.kind t = .ok w) →
+      mediaOptions C tbl dflt (path ++ mediaQuery C tbl use (fun j => some (dflt j))
+        (withTiming tbl ast depth of) ovs) = .ok res → res i = dflt i) := by
+  obtain ⟨o0, o1, o5, _, _, hof, h5⟩ := serve_stages C K tbl m mode args dflt of hs
+  have hval : of i = none ∨ of i = some (dflt i) := by
+    rw [hof]
+    rcases removeUnused_cases K tbl mode o5 i with h | h
+    · exact Or.inl h
+    · right; rw [h, h5 i r hr hh, removeUnsupported_dropped K tbl m.features dflt o1 i r hr hdrop]
+  have hwt : withTiming tbl ast depth of i = of i := by
+    unfold withTiming; simp [hnt.1, hnt.2]
+  have hnotin : ∀ use t, (r.cgi, t) ∉ genParams C tbl (some use) mediaExclude true (fun j => some (dflt j))
+      (withTiming tbl ast depth of) := by
+    intro use t hmem
+    obtain ⟨j, s, hsr, he⟩ := (mem_genParams C tbl (some use) mediaExclude true _ _ _).mp hmem
+    obtain ⟨v, ho, _, hd, _, hp⟩ := (emit_some_iff C _ _ _ _ _ _ _ _).mp he
+    have hc : s.cgi = r.cgi := by have := congrArg Prod.fst hp; simpa using this
+    obtain ⟨hji, hsr'⟩ := row_index_unique tbl ht j i s r hsr hr hc
+    subst hji
+    rw [hwt] at ho
+    rcases hval with h | h
+    · rw [h] at ho; cases ho
+    · rw [h] at ho; cases ho; simp at hd
+  refine ⟨hval, hnotin, ?_⟩
+  intro use path ovs res hC hovs hp hnov hcanon hov hres
+  obtain ⟨res', hres', hdef, _⟩ := media_side_parse C hC tbl ht use dflt (withTiming tbl ast depth of)
+    ovs hovs path hp hcanon hov
+  rw [hres'] at hres
+  cases hres
+  apply hdef i r hr
+  intro t hmem
+  rcases (mem_applyOverrides _ ovs hovs _).mp hmem with ⟨h1, _⟩ | ⟨t', h1, _⟩
+  · exact hnotin use t h1
+  · exact hnov (List.mem_map.mpr ⟨(r.cgi, t'), h1, rfl⟩)
+
+end
+
+
+
+section
+variable {DT : Type} [DecidableEq DT] (C : DTCodec DT)
+
+/-- the options after the manifest's timing has been written back (live manifests) -/
+def timed (tbl : List OptionRow) (timing : Option (Val DT × Val DT)) (of : Opts DT) : Opts DT :=
+  match timing with
+  | some t => withTiming tbl t.1 t.2 of
+  | none => of
+
+/-- structural facts about a registry table that the request-level theorem uses; all of them are
+`decide`d for the generated table (`table_request_facts`) -/
+structure RequestTableFacts (tbl : List OptionRow) (use : Nat) : Prop where
+  forced : ∀ r ∈ tbl, r.fieldName ∈ handlerFields → r.usage &&& use = 0
+  posDefault : ∀ r ∈ tbl, ∀ d, r.kind = .posIntOrDefault d → 1 ≤ d
+  drmRow : ∀ i : Nat, ∀ r : OptionRow, tbl[i]? = some r → r.kind = .drmSelection →
+    fieldIdx tbl "drmSelection" = some i
+  astRow : ∀ i : Nat, ∀ r : OptionRow, fieldIdx tbl "availabilityStartTime" = some i →
+    tbl[i]? = some r → r.kind = .astDateTime ∧ r.dflt ∈ ["now", "today", "month", "year", "epoch"]
+
+/-- **from the request of a manifest to the media handler.**
+Request arguments → `calculate_options` with the template's restrictions and features and the stream
+defaults → `check_option_values` → the handler's filters → (live) the timing written back →
+`generate_cgi_parameters` per media type → `dict_to_cgi_params` → URL → the media handler's
+`calculate_options` with the same stream defaults.  For every accepted manifest request the
+conclusion of `media_side_same_value` holds for the options the manifest really used:
+overridden options parse to their override, every option with a usage bit of the media type ends
+with the manifest's value, everything else is at its default.  Hypotheses beyond the table facts:
+what the timing writes back is canonical, and the licence-URL corner of `fromString_canonical`. -/
+theorem request_to_media_same_value (hC : DtCodecLaws C) (tbl : List OptionRow) (ht : TableOk tbl)
+    (K : FilterConsts) (m : ManifestRow) (mode : Bytes) (args : List (Bytes × Bytes))
+    (dflt : Nat → Val DT) (of : Opts DT)
+    (hs : serveManifestOptions C K tbl m mode args dflt = .ok of)
+    (timing : Option (Val DT × Val DT)) (use : Nat) (hfacts : RequestTableFacts tbl use)
+    (ovs : List (String × Bytes)) (hovs : (ovs.map Prod.fst).Nodup)
+    (path : Bytes) (hp : (35 : UInt8) ∉ path ∧ (63 : UInt8) ∉ path)
+    (htiming : ∀ t, timing = some t → ∀ i : Nat, ∀ r : OptionRow, tbl[i]? = some r →
+      (fieldIdx tbl "availabilityStartTime" = some i → Canonical r.kind t.1) ∧
+      (fieldIdx tbl "timeShiftBufferDepth" = some i → Canonical r.kind t.2))
+    (hurl : ∀ kv ∈ applyRestrictions m.restrictions args, ∀ i : Nat, ∀ r : OptionRow,
+      findRow tbl kv.1 = some i → tbl[i]? = some r → r.kind = .quotedUrl →
+      isNoneCI kv.2 = false → isNoneCI (unquotePlus kv.2) = false)
+    (hov : ∀ k t, (k, t) ∈ ovs → ∃ i : Nat, ∃ r : OptionRow, ∃ w, tbl[i]? = some r ∧ r.cgi = k ∧
+      fromString C r.kind t = .ok w) :
+    ∃ res, mediaOptions C tbl dflt
+        (path ++ mediaQuery C tbl use (fun i => some (dflt i)) (timed tbl timing of) ovs) = .ok res ∧
+      ∀ i : Nat, ∀ r : OptionRow, tbl[i]? = some r →
+        (∀ t, (r.cgi, t) ∈ ovs → fromString C r.kind t = .ok (res i)) ∧
+        (r.cgi ∉ ovs.map Prod.fst →
+          (∀ v, timed tbl timing of i = some v → r.usage &&& use ≠ 0 →
+            mediaExclude.contains r.fieldName = false → ValEquiv (res i) v) ∧
+          ((timed tbl timing of i = none ∨ r.usage &&& use = 0 ∨
+            mediaExclude.contains r.fieldName = true) → res i = dflt i)) := by
+  obtain ⟨o0, o1, o5, h0, h1, hof, h5⟩ := serve_stages C K tbl m mode args dflt of hs
+  obtain ⟨hast, hdrmok, _, _⟩ := checkOptionValues_ok C K tbl o0 o1 h1
+  -- every value of an accepted request that can be written to a media URL is canonical
+  have hofcanon : ∀ i : Nat, ∀ r : OptionRow, ∀ v, tbl[i]? = some r → of i = some v →
+      r.usage &&& use ≠ 0 → v ≠ dflt i → Canonical r.kind v := by
+    intro i r v hr hv hu hd
+    have hrm := List.mem_of_getElem? hr
+    have hnh : r.fieldName ∉ handlerFields := fun h => hu (hfacts.forced r hrm h)
+    have hv5 : o5 i = v := by
+      rw [hof] at hv
+      rcases removeUnused_cases K tbl mode o5 i with h | h
+      · rw [h] at hv; cases hv
+      · rw [h] at hv; exact Option.some.inj hv
+    rw [h5 i r hr hnh] at hv5
+    have hv1 : o1 i = v := by
+      rcases removeUnsupported_cases K tbl m.features dflt o1 i with h | h
+      · rw [h] at hv5; exact hv5
+      · rw [h] at hv5; exact absurd hv5.symm hd
+    rcases astStep_ok C tbl o0 o1 hast i with h | ⟨hi, h | ⟨d, d', _, _, h⟩⟩
+    · -- untouched by the value check: a default or a parsed argument
+      rw [h] at hv1
+      rcases convertOptions_origin C tbl _ dflt o0 h0 i with hdf | ⟨kv, hkv, r', hf, hr', hfs⟩
+      · rw [hdf] at hv1; exact absurd hv1.symm hd
+      · rw [hr] at hr'; cases hr'
+        rw [hv1] at hfs
+        apply fromString_canonical C r.kind kv.2 v hfs
+        · intro hk; exact hurl kv hkv i r hf hr hk
+        · intro d hk; exact hfacts.posDefault r hrm d hk
+        · intro l hl
+          subst hl
+          have hk := fromString_drm_kind C r.kind kv.2 l hfs
+          have hidx := hfacts.drmRow i r hr hk
+          apply drmNamesOk_spec tbl o0 hdrmok l
+          unfold getField; rw [hidx]; exact hv1
+    · obtain ⟨hk, hdf⟩ := hfacts.astRow i r hi hr
+      rw [h.2] at hv1; rw [← hv1]
+      exact globalDefault_ast_canonical C tbl i r hr hk hdf
+    · obtain ⟨hk, _⟩ := hfacts.astRow i r hi hr
+      rw [h] at hv1; rw [← hv1, hk]; trivial
+  apply media_side_same_value C hC tbl ht use dflt (timed tbl timing of) ovs hovs path hp ?_ hov
+  intro i r v hr hv hu _ hd _
+  cases htm : timing with
+  | none =>
+    rw [htm] at hv
+    exact hofcanon i r v hr hv hu hd
+  | some t =>
+    rw [htm] at hv
+    simp only [timed, withTiming] at hv
+    obtain ⟨ha, hdp⟩ := htiming t htm i r hr
+    split at hv
+    · rename_i hi
+      cases hoi : of i with
+      | none => rw [hoi] at hv; simp at hv
+      | some w => rw [hoi] at hv; simp at hv; rw [← hv]; exact ha hi
+    · split at hv
+      · rename_i hi
+        cases hoi : of i with
+        | none => rw [hoi] at hv; simp at hv
+        | some w => rw [hoi] at hv; simp at hv; rw [← hv]; exact hdp hi
+      · exact hofcanon i r v hr hv hu hd
+
+end
+
+
+
+/-! ## obligations over the generated template table × the generated option table -/
+
+/-- **for every template of `manifest_map` and every option whose feature the template lists, the
+feature filter keeps the option** (with `supported_options_survive`: its value passes unchanged) -/
+theorem supported_options_survive_table :
+    ∀ m ∈ manifests, ∀ r ∈ table, r.full ∈ m.features → dropsOption filters m.features r = false := by
+  decide +kernel
+
+/-- the only options with a media usage bit that some template drops are the audio codec, the DRM
+selection and the event selection; no template drops the start time or the buffer depth, and the
+only handler-assigned field among the feature-controlled ones is `segmentTimeline` (manifest only) -/
+theorem table_dropped_media_options :
+    (∀ m ∈ manifests, ∀ r ∈ table, dropsOption filters m.features r = true → r.usage &&& 14 ≠ 0 →
+      r.full ∈ ["audioCodec", "drmSelection", "eventTypes"]) ∧
+    (∀ r ∈ table, r.pfx = "" → r.full ∈ featureControlled →
+      r.fieldName ∉ ["availabilityStartTime", "timeShiftBufferDepth", "mode", "patch"]) := by
+  constructor <;> decide +kernel
+
+/-- every name the filters use is a real top-level option, every restricted parameter is a registered
+cgi name, and the names of the DRM branches of `remove_unused_parameters` match no field (inert) -/
+theorem table_filter_names :
+    (∀ f ∈ featureControlled, ∃ r ∈ table, r.pfx = "" ∧ r.full = f) ∧
+    (∀ f ∈ liveOnly, ∃ r ∈ table, r.pfx = "" ∧ r.full = f) ∧
+    (∀ m ∈ manifests, ∀ kr ∈ m.restrictions, ∃ r ∈ table, r.cgi = kr.1) ∧
+    (∀ r ∈ table, r.pfx = "" → r.full ∉ drmUnused) ∧
+    (∀ f ∈ ["drmSelection", "utcMethod", "availabilityStartTime", "audioErrors", "manifestErrors",
+        "textErrors", "videoErrors", "videoCorruption", "eventTypes", "clockDrift", "leeway",
+        "minimumUpdatePeriod", "timeShiftBufferDepth", "mode", "patch", "segmentTimeline"],
+      ∃ r ∈ table, r.fieldName = f) ∧
+    (∀ e ∈ eventTypes, ∀ k ∈ ["count", "timescale", "duration", "version"],
+      ∃ r ∈ table, r.fieldName = e ++ "." ++ k) := by
+  refine ⟨?_, ?_, ?_, ?_, ?_, ?_⟩ <;> decide +kernel
+
+def posDefaultOk (r : OptionRow) : Bool :=
+  match r.kind with
+  | .posIntOrDefault d => decide (1 ≤ d)
+  | _ => true
+
+/-- the structural facts `request_to_media_same_value` needs, for the generated table and the
+three media types -/
+theorem table_request_facts : ∀ use ∈ [2, 4, 8], RequestTableFacts table use := by
+  have hnd : (table.map OptionRow.fieldName).Nodup := table_field_names_distinct.1
+  have hforced : ∀ use ∈ [2, 4, 8], ∀ r ∈ table, r.fieldName ∈ handlerFields → r.usage &&& use = 0 := by
+    decide +kernel
+  have hpos : ∀ r ∈ table, posDefaultOk r = true := by decide +kernel
+  have hdrm : ∀ r ∈ table, r.kind = .drmSelection → r.fieldName = "drmSelection" := by decide +kernel
+  have hast : ∀ r ∈ table, r.fieldName = "availabilityStartTime" →
+      r.kind = .astDateTime ∧ r.dflt ∈ ["now", "today", "month", "year", "epoch"] := by decide +kernel
+  intro use hu
+  refine ⟨hforced use hu, ?_, ?_, ?_⟩
+  · intro r hr d hk
+    have := hpos r hr
+    unfold posDefaultOk at this
+    rw [hk] at this
+    simpa using this
+  · intro i r hr hk
+    have := fieldIdx_of_get table hnd i r hr
+    rwa [hdrm r (List.mem_of_getElem? hr) hk] at this
+  · intro i r hi hr
+    obtain ⟨r', hr', hn⟩ := fieldIdx_spec table _ i hi
+    rw [hr] at hr'; cases hr'
+    exact hast r (List.mem_of_getElem? hr) hn
+
+
+section
+variable {DT : Type} [DecidableEq DT] (C : DTCodec DT)
+
+/-- `request_to_media_same_value` for the generated tables: every template of `manifest_map`, every
+media type, the registered options and the filters' constants as they are in the tree -/
+theorem request_to_media_same_value_generated (hC : DtCodecLaws C) (m : ManifestRow) (_hm : m ∈ manifests)
+    (use : Nat) (hu : use ∈ [2, 4, 8]) (mode : Bytes) (args : List (Bytes × Bytes))
+    (dflt : Nat → Val DT) (of : Opts DT)
+    (hs : serveManifestOptions C filters table m mode args dflt = .ok of)
+    (timing : Option (Val DT × Val DT))
+    (ovs : List (String × Bytes)) (hovs : (ovs.map Prod.fst).Nodup)
+    (path : Bytes) (hp : (35 : UInt8) ∉ path ∧ (63 : UInt8) ∉ path)
+    (htiming : ∀ t, timing = some t → ∀ i : Nat, ∀ r : OptionRow, table[i]? = some r →
+      (fieldIdx table "availabilityStartTime" = some i → Canonical r.kind t.1) ∧
+      (fieldIdx table "timeShiftBufferDepth" = some i → Canonical r.kind t.2))
+    (hurl : ∀ kv ∈ applyRestrictions m.restrictions args, ∀ i : Nat, ∀ r : OptionRow,
+      findRow table kv.1 = some i → table[i]? = some r → r.kind = .quotedUrl →
+      isNoneCI kv.2 = false → isNoneCI (unquotePlus kv.2) = false)
+    (hov : ∀ k t, (k, t) ∈ ovs → ∃ i : Nat, ∃ r : OptionRow, ∃ w, table[i]? = some r ∧ r.cgi = k ∧
+      fromString C r.kind t = .ok w) :
+    ∃ res, mediaOptions C table dflt
+        (path ++ mediaQuery C table use (fun i => some (dflt i)) (timed table timing of) ovs) = .ok res ∧
+      ∀ i : Nat, ∀ r : OptionRow, table[i]? = some r →
+        (∀ t, (r.cgi, t) ∈ ovs → fromString C r.kind t = .ok (res i)) ∧
+        (r.cgi ∉ ovs.map Prod.fst →
+          (∀ v, timed table timing of i = some v → r.usage &&& use ≠ 0 →
+            mediaExclude.contains r.fieldName = false → ValEquiv (res i) v) ∧
+          ((timed table timing of i = none ∨ r.usage &&& use = 0 ∨
+            mediaExclude.contains r.fieldName = true) → res i = dflt i)) :=
+  request_to_media_same_value C hC table table_wellformed filters m mode args dflt of hs timing use
+    (table_request_facts use hu) ovs hovs path hp htiming hurl hov
+
+end
+
+/-- a concrete accepted request: `manifest_a.mpd` lists neither `drmSelection` nor `eventTypes` and
+restricts `drm` to `none`: `?drm=playready&events=ping&leeway=60` keeps the leeway, and the DRM and
+event selections handed to `ManifestContext` are the defaults (nothing half-applied) -/
+example : ∃ m ∈ manifests, m.key = "manifest_a.mpd" ∧ ∃ of,
+    serveManifestOptions toyCodec filters table m (ascii "live")
+      [(ascii "drm", ascii "playready"), (ascii "events", ascii "ping"), (ascii "leeway", ascii "60")]
+      (globalDefault toyCodec table) = .ok of ∧
+    of 5 = some (.drm []) ∧ of 10 = some (.list []) ∧ of 32 = some (.int 60) := by
+  refine ⟨manifests[2]'(by decide), List.getElem_mem _, rfl, _, rfl, rfl, rfl, rfl⟩
 
 end DashLive.Options
